@@ -27,7 +27,11 @@ RULE = ("part 'format': Eliot messages (metadata + action/message typing + field
         "line reported as 'Not JSON' / 'Not an Eliot message'. Both parts run in processes whose local time zone is one of five POSIX zones (offsets from -11 h to +12:45): the default rendering "
         "stays UTC; with local_timezone=True / --local-timezone the timestamp is the local time without the Z and nothing else changes. "
         "part 'filter': python -m eliot.filter with J reproduces every "
-        "message, with SKIP drops exactly the selected ones. non-trivial = message with a multi-line/escape-requiring string or "
+        "message, with SKIP drops exactly the selected ones. part 'keylen': for every length 1..120 (thorough: ..200) a message with a field name of exactly that length (ASCII and mixed alphabets, scalar, multi-line, long and nested values) goes through "
+        "compact_format and pretty_format (same re-parsing oracle) and the 120 messages are streamed through the CLI in both modes (exit status 0, every message rendered). part 'live': the CLI (PYTHONUNBUFFERED removed from its environment, so stdout is block "
+        "buffered and output shows up once it exceeds the buffers) is fed 2500-4000 complete lines (messages of >= 100 bytes each, one non-JSON line and one non-Eliot object among the first ten) through a pipe that is KEPT OPEN: the renderings of "
+        "the first ten lines must appear on stdout while stdin is still open; the violation is decided on a state, not a deadline - all input consumed (pipe empty), the command asleep without using CPU over consecutive samples with its stdout "
+        "drained, and those renderings absent (no such state within 90 s = inconclusive); afterwards stdin is closed and exit status 0 and one rendering per message are required. non-trivial = message with a multi-line/escape-requiring string or "
         "nesting, or a stream with >=2 kinds of foreign lines; distinct by hash of message / stream")
 ASSUMPTIONS = ["field names contain no whitespace and no '=' (otherwise the compact form is ambiguous to any reader)",
                "the CLI is run with UTF-8 standard streams"]
@@ -44,6 +48,9 @@ def plan(tier, seed):
     specs += [{"part": "cli", "seed": seed, "lo": i, "hi": min(m, i + 4)} for i in range(0, m, 4)]
     f = 160 if tier == "quick" else 1600
     specs += [{"part": "filter", "seed": seed, "lo": i, "hi": min(f, i + 4)} for i in range(0, f, 4)]
+    specs += [{"part": "keylen", "seed": seed, "lo": i, "hi": i + 1, "maxlen": 120 if tier == "quick" or i % 2 == 0 else 200}
+              for i in range(2 if tier == "quick" else 10)]
+    specs += [{"part": "live", "seed": seed, "lo": i, "hi": i + 1} for i in range(4 if tier == "quick" else 24)]
     return specs
 
 
@@ -389,6 +396,277 @@ def run_cli(spec, res):
                                                  "stderr": p.stderr.decode("utf-8", "replace")[-600:]}})
 
 
+def _cli_env(zname="UTC0", unbuffered_removed=False):
+    env = dict(os.environ, PYTHONPATH=REPO, PYTHONIOENCODING="utf-8", PYTHONWARNINGS="ignore", TZ=zname)
+    if unbuffered_removed:
+        env.pop("PYTHONUNBUFFERED", None)
+    return env
+
+
+CLI_CMD = [sys.executable, "-c", "from eliot.prettyprint import _main; _main()"]
+
+
+def run_keylen(spec, res):
+    """Field names of EVERY length 1..maxlen: rendered by both formatters (re-parsed) and streamed through the CLI in both modes."""
+    import time as _time
+    os.environ["TZ"] = "UTC0"
+    _time.tzset()
+    for i in range(spec["lo"], spec["hi"]):
+        rng = random.Random("%s:C20:k:%d" % (spec["seed"], i))
+        alphabet = ["abcdefghijklmnopqrstuvwxyz_0123456789", "abcXYZ019_-.:/|\\\"'é中", "kK_é中\U0001f600.-"][i % 3]
+        msgs = []
+        c = res["counters"]
+        for n in range(1, spec["maxlen"] + 1):
+            m = {"task_uuid": "keylen-%04d-4000-8000-%012d" % (n, rng.randint(0, 10**9)), "task_level": [1, n], "timestamp": 1425356800.0 + n + rng.choice([0, 0.5, 0.000001]),
+                 "message_type": "app:keylen"}
+            while True:
+                k = "".join(rng.choice(alphabet) for _ in range(n))
+                if k not in SKIPF:
+                    break
+            r = rng.random()
+            if r < 0.3:
+                v = gen.gen_scalar(rng)
+            elif r < 0.45:
+                v = "\n".join(gen.gen_text(rng, long_ok=False) for _ in range(rng.randint(2, 4)))
+            elif r < 0.6:
+                v = " ".join(rng.choice(["alpha", "beta", "gamma", "delta", "x" * 30]) for _ in range(rng.randint(5, 30)))
+            else:
+                v = gen.gen_value(rng, rng.choice([1, 2, 3]))
+            m[k] = v
+            if rng.random() < 0.3:
+                m[gen_keyname(rng)] = gen.gen_scalar(rng)
+            msgs.append(m)
+            problems = []
+            for name, fn, chk in (("compact_format", compact_format, check_compact), ("pretty_format", pretty_format, check_pretty)):
+                try:
+                    out = fn(dict(m))
+                except BaseException as e:
+                    problems.append("%s raised %r for a message with a field name of %d characters" % (name, e, n))
+                    continue
+                if not isinstance(out, str):
+                    problems.append("%s returned %s" % (name, type(out).__name__))
+                    continue
+                chk(m, out, problems)
+            res["evals"] += 1
+            c["messages_rendered"] = c.get("messages_rendered", 0) + 1
+            c["keylen_messages"] = c.get("keylen_messages", 0) + 1
+            res["sets"].setdefault("field_name_lengths", []).append("%03d" % n)
+            res["nontrivial"].append(h(["keylen", m]))
+            if problems and len(res["violations"]) < 4:
+                res["violations"].append({"msg": problems[0], "mech": None, "detail": {"part": "keylen", "case": i, "name_length": n, "problems": problems[:4], "message": m}})
+        # the same messages as one stream through the command, in both modes
+        data = b"".join(json.dumps(m, ensure_ascii=(j % 2 == 0)).encode("utf-8") + b"\n" for j, m in enumerate(msgs))
+        for compact in (False, True):
+            try:
+                p = subprocess.run(CLI_CMD + (["-c"] if compact else []), input=data, capture_output=True, env=_cli_env(), timeout=120)
+            except subprocess.TimeoutExpired:
+                res["inconclusive"] = "eliot-prettyprint subprocess exceeded 120 s"
+                continue
+            out = p.stdout.decode("utf-8", "replace")
+            problems = []
+            if p.returncode != 0:
+                err = p.stderr.decode("utf-8", "replace").strip().splitlines()
+                problems.append("eliot-prettyprint exited with status %d: %s" % (p.returncode, err[-1] if err else ""))
+            # every message shows up, in order, with its header and its field name (the renderings themselves are judged above)
+            pos = 0
+            missing = []
+            for m in msgs:
+                head = (m["task_uuid"] + "/1/%d " % m["task_level"][1]) if compact else ("%s -> /1/%d\n" % (m["task_uuid"], m["task_level"][1]))
+                at = out.find(head, pos)
+                if at < 0:
+                    missing.append(m["task_level"][1])
+                    continue
+                pos = at + len(head)
+                k = [k for k in m if k not in SKIPF][0]
+                nxt = out.find("keylen-", pos)
+                body = out[pos:nxt if nxt >= 0 else len(out)]
+                if ((" %s=" % k) if compact else ("\n  %s: " % k)) not in body:
+                    problems.append("the command's rendering of the message with a %d-character field name does not show that field" % len(k))
+            if missing:
+                problems.append("the command did not render the messages with field-name lengths %s%s (%d of %d; it got %d bytes of input)" % (
+                    missing[:6], "..." if len(missing) > 6 else "", len(missing), len(msgs), len(data)))
+            res["evals"] += 1
+            c["cli_streams"] = c.get("cli_streams", 0) + 1
+            c["cli_input_lines"] = c.get("cli_input_lines", 0) + len(msgs)
+            c["keylen_cli_streams"] = c.get("keylen_cli_streams", 0) + 1
+            if problems and len(res["violations"]) < 6:
+                res["violations"].append({"msg": problems[0], "mech": None,
+                                          "detail": {"part": "keylen", "case": i, "compact": compact, "problems": problems[:4],
+                                                     "stderr": p.stderr.decode("utf-8", "replace")[-600:]}})
+
+
+def _proc_state(pid):
+    """(state letter, cpu ticks used) of a process, or None."""
+    try:
+        with open("/proc/%d/stat" % pid, "rb") as f:
+            rest = f.read().rsplit(b")", 1)[1].split()
+        return rest[0].decode("ascii"), int(rest[11]) + int(rest[12])
+    except (OSError, IndexError, ValueError):
+        return None
+
+
+def run_live(spec, res):
+    """'processes its input line by line': a live producer keeps the pipe open; what it has delivered is rendered meanwhile."""
+    import array
+    import fcntl
+    import select
+    import termios
+    import time as _time
+    for i in range(spec["lo"], spec["hi"]):
+        rng = random.Random("%s:C20:l:%d" % (spec["seed"], i))
+        compact = i % 2 == 1
+        n = rng.choice([2500, 3200, 4000])
+        notjson_at, noteliot_at = rng.sample(range(1, 10), 2)
+        lines = []
+        uuids = []
+        for j in range(n):
+            if j == notjson_at or (j > 10 and j % 997 == 0):
+                lines.append(b"this line is NOT JSON, number %d" % j)
+            elif j == noteliot_at or (j > 10 and j % 1201 == 0):
+                lines.append(json.dumps({"foreign": "json object", "n": j}).encode("utf-8"))
+            else:
+                u = "live%05d-0000-4000-8000-%012d" % (j, rng.randint(0, 10**9))
+                uuids.append(u)
+                text = "message number %d %s" % (j, rng.choice(["\nwith a second line ", " on one line "]))
+                text += "x" * (110 - len(text))
+                m = {"task_uuid": u, "task_level": [1, j % 9 + 1], "timestamp": 1443193754.25 + j, "message_type": "live:stream", "text": text,
+                     "payload": {"n": j, "list": [j, j + 1]}}
+                lines.append(json.dumps(m).encode("utf-8"))
+        data = b"".join(l + b"\n" for l in lines)
+        # every rendering shows the text field (>= 100 characters): the expected output is far larger than any stdio buffer
+        least_output = 100 * len(uuids)
+        first = [u for u in uuids if int(u[4:9]) < 10]
+        wanted = [u.encode("ascii") for u in first] + [b"Not JSON: ", b"Not an Eliot message: "]
+        p = subprocess.Popen(CLI_CMD + (["-c"] if compact else []), stdin=subprocess.PIPE, stdout=subprocess.PIPE, stderr=subprocess.PIPE,
+                             env=_cli_env(unbuffered_removed=True))
+        fin, fout, ferr = p.stdin.fileno(), p.stdout.fileno(), p.stderr.fileno()
+        for fd in (fin, fout, ferr):
+            os.set_blocking(fd, False)
+        bufs = {fout: bytearray(), ferr: bytearray()}
+        open_r = [fout, ferr]
+        off = 0
+        seen_while_open = False
+        quiet = 0
+        last = None
+        verdict = None
+        start = _time.monotonic()
+        try:
+            while verdict is None:
+                r, w_, _ = select.select(open_r, [fin] if off < len(data) else [], [], 0.3)
+                progressed = False
+                for fd in r:
+                    try:
+                        b = os.read(fd, 1 << 16)
+                    except BlockingIOError:
+                        continue
+                    if b:
+                        bufs[fd] += b
+                        progressed = True
+                    else:
+                        open_r.remove(fd)
+                if w_:
+                    try:
+                        off += os.write(fin, data[off:off + 65536])
+                        progressed = True
+                    except BlockingIOError:
+                        pass
+                    except OSError:
+                        off = len(data)  # the reader has gone away (judged below)
+                if not seen_while_open:
+                    headpart = bytes(bufs[fout][:1 << 17])
+                    seen_while_open = all(w in headpart for w in wanted)
+                if seen_while_open and off >= len(data):
+                    verdict = "rendered"
+                elif fout not in open_r and p.poll() is not None:
+                    verdict = "exited"
+                elif off >= len(data) and not progressed:
+                    # everything has been delivered: is the command waiting for more although the first renderings are missing?
+                    pending = array.array("i", [0])
+                    fcntl.ioctl(fin, termios.FIONREAD, pending)
+                    st = _proc_state(p.pid)
+                    if pending[0] == 0 and st is not None and st[0] == "S" and st == last:
+                        quiet += 1
+                    else:
+                        quiet = 0
+                    last = st
+                    if quiet >= 4:
+                        verdict = "waiting"
+                else:
+                    quiet = 0
+                    last = None
+                if verdict is None and _time.monotonic() - start > 90:
+                    verdict = "timeout"
+            early = len(bufs[fout])
+            # the producer ends: the rest arrives, the command exits
+            try:
+                p.stdin.close()
+            except OSError:
+                pass
+            deadline = _time.monotonic() + 120
+            while open_r and _time.monotonic() < deadline:
+                r, _, _ = select.select(open_r, [], [], 1.0)
+                for fd in r:
+                    try:
+                        b = os.read(fd, 1 << 16)
+                    except BlockingIOError:
+                        continue
+                    if b:
+                        bufs[fd] += b
+                    else:
+                        open_r.remove(fd)
+            try:
+                code = p.wait(timeout=max(1.0, deadline - _time.monotonic()))
+            except subprocess.TimeoutExpired:
+                code = None
+        finally:
+            if p.poll() is None:
+                p.kill()
+                p.wait()
+            for f in (p.stdout, p.stderr):
+                try:
+                    f.close()
+                except OSError:
+                    pass
+        out = bytes(bufs[fout])
+        err = bytes(bufs[ferr]).decode("utf-8", "replace")
+        problems = []
+        c = res["counters"]
+        res["evals"] += 1
+        if verdict == "timeout":
+            res["inconclusive"] = "live stream: neither the first renderings nor a command waiting for input within 90 s (%d of %d bytes delivered, %d bytes of output)" % (
+                off, len(data), early)
+            continue
+        if verdict == "waiting":
+            lack = [w.decode("ascii") for w in wanted if w not in out[:early][:1 << 17]]
+            problems.append("%d complete lines (%d bytes, renderings of at least %d bytes) were delivered and consumed and the command sleeps waiting for more with stdin still "
+                            "open, but only %d bytes of output have appeared; not rendered/reported yet: %s of the first ten lines - the input is not processed line by line%s" % (
+                                len(lines), len(data), least_output, early, lack[:4], " (all %d bytes came out once stdin was closed)" % len(out) if len(out) > early else ""))
+        elif verdict == "exited":
+            problems.append("the command ended with status %r while its stdin was still open (%d of %d bytes delivered): %s" % (code, off, len(data), err.strip().splitlines()[-1:]))
+        else:
+            c["live_first_lines_rendered_while_open"] = c.get("live_first_lines_rendered_while_open", 0) + len(wanted)
+        if verdict != "exited":
+            if code is None:
+                res["inconclusive"] = "live stream: the command did not exit within 120 s of its stdin being closed"
+            elif code != 0:
+                problems.append("eliot-prettyprint exited with status %d: %s" % (code, err.strip().splitlines()[-1:]))
+            else:
+                got = set(re.findall(rb"live\d{5}-0000-4000-8000-\d{12}", out))
+                lost = [u for u in uuids if u.encode("ascii") not in got]
+                if lost:
+                    problems.append("%d of the %d messages of the stream were never rendered, first %s" % (len(lost), len(uuids), lost[0]))
+                nrep = out.count(b"Not JSON: ") + out.count(b"Not an Eliot message: ")
+                if nrep != len(lines) - len(uuids):
+                    problems.append("%d foreign lines in the stream, %d reports" % (len(lines) - len(uuids), nrep))
+        c["live_streams"] = c.get("live_streams", 0) + 1
+        c["live_lines_delivered"] = c.get("live_lines_delivered", 0) + len(lines)
+        res["nontrivial"].append(h(["live", compact, n, notjson_at, noteliot_at]))
+        if problems:
+            res["violations"].append({"msg": problems[0], "mech": None,
+                                      "detail": {"part": "live", "case": i, "compact": compact, "lines": len(lines), "input_bytes": len(data), "verdict": verdict,
+                                                 "output_bytes_while_stdin_open": early, "output_bytes_total": len(out), "problems": problems[:4], "stderr": err[-600:]}})
+
+
 def run_filter(spec, res):
     for i in range(spec["lo"], spec["hi"]):
         rng = random.Random("%s:C20:x:%d" % (spec["seed"], i))
@@ -459,7 +737,7 @@ def run_filter(spec, res):
 
 def run_case(spec):
     res = {"evals": 0, "nontrivial": [], "counters": {}, "violations": [], "sample": None, "sets": {"foreign_kinds": []}}
-    {"format": run_format, "cli": run_cli, "filter": run_filter}[spec["part"]](spec, res)
+    {"format": run_format, "cli": run_cli, "filter": run_filter, "keylen": run_keylen, "live": run_live}[spec["part"]](spec, res)
     return res
 
 
@@ -469,4 +747,8 @@ def finalize(agg, tier):
         return "too few messages / streams / filter runs"
     if len(agg["sets"].get("foreign_kinds", {})) < len(FOREIGN_KINDS):
         return "not every kind of foreign line was fed to the CLI"
+    if len(agg["sets"].get("field_name_lengths", {})) < 120 or c.get("keylen_cli_streams", 0) < 2:
+        return "part 'keylen' did not cover every field-name length 1..120 / did not stream them through the CLI"
+    if c.get("live_streams", 0) == 0:
+        return "part 'live' never fed the command through a pipe that stayed open"
     return None
